@@ -1,4 +1,5 @@
 import MuduoVerif.Proofs.TimerProps
+import MuduoVerif.Proofs.TimerSkelTie
 /-!
 # C07 — cancel() stops a timer for good and never disturbs any other timer; no freed timer is read
 
@@ -199,5 +200,25 @@ example :
         (fun ev => isCancel 32 2 ev || isRunOf 2 ev || isRestartOf 2 ev || isRestartOf 1 ev) =
       [.restarted 16 1 2000, .run 2 2 1 32 true 1000 1000 1000 1000 1000, .cancel 32 2 true false] := by
   decide
+
+/-- T1, statement order: in every function of `TimerQueue.cc` / `Timer.cc` the model implements the source performs
+the same significant actions - clock readings, system calls, `new Timer` / `delete`, dereferences of a `Timer*`, set
+operations, hand-offs to the loop, calls inside the engine, stores, `return` - in the same order and under the same
+nesting of the generated guards and loops as `Model/Timer.lean` (`Model/TimerSkelDecl.lean`); re-extracted from /repo on
+every run (`Generated/TimerSkel.lean`), proved in `Proofs/TimerSkelTie.lean` -/
+theorem statement_order_tied :
+    Gen.TimerSkel.howMuchTimeFromNow = TimerSkel.Decl.howMuchTimeFromNow ∧
+    Gen.TimerSkel.readTimerfd = TimerSkel.Decl.readTimerfd ∧
+    Gen.TimerSkel.resetTimerfd = TimerSkel.Decl.resetTimerfd ∧
+    Gen.TimerSkel.addTimer = TimerSkel.Decl.addTimer ∧
+    Gen.TimerSkel.cancel = TimerSkel.Decl.cancel ∧
+    Gen.TimerSkel.addTimerInLoop = TimerSkel.Decl.addTimerInLoop ∧
+    Gen.TimerSkel.cancelInLoop = TimerSkel.Decl.cancelInLoop ∧
+    Gen.TimerSkel.handleRead = TimerSkel.Decl.handleRead ∧
+    Gen.TimerSkel.getExpired = TimerSkel.Decl.getExpired ∧
+    Gen.TimerSkel.reset = TimerSkel.Decl.reset ∧
+    Gen.TimerSkel.insert = TimerSkel.Decl.insert ∧
+    Gen.TimerSkel.restart = TimerSkel.Decl.restart :=
+  TimerSkel.skeletons_agree
 
 end MuduoVerif.C07
